@@ -183,7 +183,7 @@ def interleaved(s, i, timing='timed'):
         for nm in order:
             t = gen.rand_timing(rng, timing)
             stories.append(B.story(nm, 'slug', [B.item(nm + '.i', 'x')], timing_el=t))
-        return B.ro_doc('RO', 1, stories, ed_start=rng.choice(['2020-01-01T12:30:00', '2021-06-01T08:00:05']))
+        return B.ro_doc('RO', 1, stories, ed_start=rng.choice(['2020-01-01T12:30:00', '2021-06-01T08:00:05', '2021-03-28T00:59:57']))
     ta = make(names)
     tb = make(rng.sample(names, n) + ['QX'])
     judge_two(s, ta, tb, n, timing, rng.random() < 0.5)
